@@ -48,6 +48,10 @@ func (w *histWorld) Gen(seed uint64, tier string) *Plan {
 			nOps = min(nOps, 700)
 		}
 	}
+	if floatOK(w.prop, cfg.Kind) && !big && r.P(1, 8) {
+		useFloat(r, &cfg)
+		cfg.Dom = min(cfg.Dom, 64)
+	}
 	cfg.Strat = r.PickS("random", "burst", "roundrobin")
 	p := &Plan{World: "hist", Cfg: cfg}
 	s := makeSubject(cfg, false)
